@@ -37,6 +37,8 @@ def load_known():
 
 
 def meta_matches(pred, prog, clause, exc):
+    if 'any' in pred:
+        return any(meta_matches(dict(q, clause=pred.get('clause', q.get('clause'))), prog, clause, exc) for q in pred['any'])
     for k, want in pred.items():
         if k == 'clause':
             if clause != want and clause not in (want if isinstance(want, list) else [want]):
@@ -142,6 +144,8 @@ def _run(a, pid, tier, seed, t0):
         import scen3
         gens.update(scen3.GENERATORS3)
         programs = gens[pid](tier, seed)
+        for g in reg.get('extra_gen', []):
+            programs = programs + g(tier, seed)
     ids = set()
     for p in programs:
         if p['id'] in ids:
